@@ -191,6 +191,9 @@ def step_definitions(plan):
                         _logging.getLogger(emit.get("logger") or "vf").log(
                             int(emit.get("level") or _logging.WARNING),
                             emit["log"].replace("{S}", sname) + "#%d;" % i)
+                if emit.get("relevel"):
+                    # user code changes the level of the root logger while a scenario runs
+                    _logging.getLogger().setLevel(getattr(_logging, emit["relevel"]))
                 if emit.get("relog"):
                     # the application under test configures logging on its own: the root logger's handlers
                     # (behave's capture handler among them) are replaced and not put back
